@@ -131,5 +131,26 @@ def require_clean(res, what):
         raise MachineryError(f"TLC explored nothing on {what}:\n{res.out[-1500:]}")
 
 
+def run_tlapm(workdir, module, timeout=600):
+    """Checks the proofs of spec/<module>.tla with the TLA+ proof system (tlapm, SMT / Zenon / Isabelle back ends) in
+    the scratch directory.  Returns a dict {available, proved, failed, wall_s, tail}; `available` is False when the tool
+    is not installed (the caller records that the unbounded proofs were not re-checked, which is not a failure of the code)."""
+    import shutil as _sh, subprocess as _sp, time as _t
+    exe = _sh.which("tlapm")
+    if exe is None:
+        return {"available": False, "proved": 0, "failed": None, "wall_s": 0.0, "tail": "tlapm not on PATH"}
+    t0 = _t.time()
+    try:
+        p = _sp.run([exe, "--threads", "8", "--cleanfp", module + ".tla"], cwd=workdir, stdout=_sp.PIPE, stderr=_sp.STDOUT,
+                    text=True, timeout=timeout)
+        out = p.stdout
+    except _sp.TimeoutExpired as e:
+        out = (e.stdout or "") + "\n[timeout]"
+    m = re.search(r"All (\d+) obligations? proved", out)
+    f = re.search(r"(\d+)/(\d+) obligations? failed", out)
+    return {"available": True, "proved": int(m.group(1)) if m else (int(f.group(2)) - int(f.group(1)) if f else 0),
+            "failed": 0 if m else (int(f.group(1)) if f else None), "wall_s": round(_t.time() - t0, 2), "tail": out[-1500:]}
+
+
 def tla_str(s):
     return '"' + s.replace("\\", "\\\\").replace('"', '\\"') + '"'
